@@ -344,6 +344,17 @@ func (e *Engine) assignKeys(x *Exec, fc *FuncContract) ([]string, bool) {
 				keys = append(keys, k)
 			}
 		case *CSel:
+			if q, ok := t.X.(*CSel); ok {
+				if pid, ok := q.X.(*CIdent); ok {
+					if pk := e.importedPkg(pkg, pid.Name); pk != nil {
+						if si, fi := e.lookupTypeField(x, pk, q.Name, t.Name); si != nil {
+							k, _ := x.fieldKeyOrGhost(si, fi, t.Name)
+							keys = append(keys, k)
+							continue
+						}
+					}
+				}
+			}
 			if id, ok := t.X.(*CIdent); ok {
 				if si, fi := e.lookupTypeField(x, pkg, id.Name, t.Name); si != nil {
 					k, _ := x.fieldKeyOrGhost(si, fi, t.Name)
